@@ -22,33 +22,33 @@ import (
 
 // Result is one line of the worker's JSONL output.
 type Result struct {
-	Seed        int64             `json:"seed"`
-	Scenario    string            `json:"scenario"`
-	Digest      string            `json:"digest"`
-	SchedDigest string            `json:"sched_digest"`
-	Steps       int               `json:"steps"`
-	SimMs       int64             `json:"sim_ms"`
-	WallUs      int64             `json:"wall_us"`
-	Faults      map[string]int    `json:"faults,omitempty"`
-	Probes      map[string]int    `json:"probes,omitempty"`
-	NonTrivial  map[string]bool   `json:"nontrivial,omitempty"`
-	Violations  []Violation       `json:"violations,omitempty"`
-	Budget      bool              `json:"budget,omitempty"`
-	Dirty       bool              `json:"dirty,omitempty"`
-	Stdio       string            `json:"stdio,omitempty"`
+	Seed        int64               `json:"seed"`
+	Scenario    string              `json:"scenario"`
+	Digest      string              `json:"digest"`
+	SchedDigest string              `json:"sched_digest"`
+	Steps       int                 `json:"steps"`
+	SimMs       int64               `json:"sim_ms"`
+	WallUs      int64               `json:"wall_us"`
+	Faults      map[string]int      `json:"faults,omitempty"`
+	Probes      map[string]int      `json:"probes,omitempty"`
+	NonTrivial  map[string]bool     `json:"nontrivial,omitempty"`
+	Violations  []Violation         `json:"violations,omitempty"`
+	Budget      bool                `json:"budget,omitempty"`
+	Dirty       bool                `json:"dirty,omitempty"`
+	Stdio       string              `json:"stdio,omitempty"`
 	Tapes       map[string][]uint32 `json:"tapes,omitempty"`
-	Trace       []string          `json:"trace,omitempty"`
-	Sched       []string          `json:"sched,omitempty"`
-	Samples     []any             `json:"samples,omitempty"`
-	YieldParks  uint64            `json:"yield_parks,omitempty"`
-	GateParks   uint64            `json:"gate_parks,omitempty"`
-	Panic       string            `json:"panic,omitempty"`
-	Enum        bool              `json:"enum,omitempty"`
-	EnumPos     int               `json:"enum_pos,omitempty"`
-	EnumVariant int               `json:"enum_variant,omitempty"`
-	EnumCount   int               `json:"enum_count,omitempty"`
-	EnumKinds   []string          `json:"enum_kinds,omitempty"`
-	Last        bool              `json:"last"`
+	Trace       []string            `json:"trace,omitempty"`
+	Sched       []string            `json:"sched,omitempty"`
+	Samples     []any               `json:"samples,omitempty"`
+	YieldParks  uint64              `json:"yield_parks,omitempty"`
+	GateParks   uint64              `json:"gate_parks,omitempty"`
+	Panic       string              `json:"panic,omitempty"`
+	Enum        bool                `json:"enum,omitempty"`
+	EnumPos     int                 `json:"enum_pos,omitempty"`
+	EnumVariant int                 `json:"enum_variant,omitempty"`
+	EnumCount   int                 `json:"enum_count,omitempty"`
+	EnumKinds   []string            `json:"enum_kinds,omitempty"`
+	Last        bool                `json:"last"`
 }
 
 // ExecOpts selects how a run is executed.
@@ -62,22 +62,22 @@ type ExecOpts struct {
 
 // ReplayFile is what a violation is written as and replayed from.
 type ReplayFile struct {
-	Property  string              `json:"property"`
-	Kind      string              `json:"kind"`
-	Message   string              `json:"message"`
-	Seed      int64               `json:"seed"`
-	Scenario  string              `json:"scenario"`
-	Tapes     map[string][]uint32 `json:"tapes"`
-	Original  map[string][]uint32 `json:"original_tapes,omitempty"`
-	Minimised bool                `json:"minimised"`
-	Enum        bool              `json:"enum,omitempty"`
-	EnumPos     int               `json:"enum_pos,omitempty"`
-	EnumVariant int               `json:"enum_variant,omitempty"`
-	RepoTree  string              `json:"repo_tree,omitempty"`
-	Workload  any                 `json:"workload,omitempty"`
-	Trace     []string            `json:"trace,omitempty"`
-	Sched     []string            `json:"schedule,omitempty"`
-	Stats     map[string]any      `json:"stats,omitempty"`
+	Property    string              `json:"property"`
+	Kind        string              `json:"kind"`
+	Message     string              `json:"message"`
+	Seed        int64               `json:"seed"`
+	Scenario    string              `json:"scenario"`
+	Tapes       map[string][]uint32 `json:"tapes"`
+	Original    map[string][]uint32 `json:"original_tapes,omitempty"`
+	Minimised   bool                `json:"minimised"`
+	Enum        bool                `json:"enum,omitempty"`
+	EnumPos     int                 `json:"enum_pos,omitempty"`
+	EnumVariant int                 `json:"enum_variant,omitempty"`
+	RepoTree    string              `json:"repo_tree,omitempty"`
+	Workload    any                 `json:"workload,omitempty"`
+	Trace       []string            `json:"trace,omitempty"`
+	Sched       []string            `json:"schedule,omitempty"`
+	Stats       map[string]any      `json:"stats,omitempty"`
 }
 
 const (
